@@ -23,7 +23,7 @@ T = {
             "Trusts the unfused dense images built by the harness."),
     "C04": ("reference-model monitor: dense reconstruction, isometry and ordering oracles on factorisations",
             "svd/qr/eigh/eig results are converted to dense and reconstruction, (co-)isometry, ordering, triangularity, charge and "
-            "position/signature of the new leg are checked against NumPy.",
+            "position/signature of the new leg are checked against NumPy; the input object is compared with its pre-call record (buffer, metadata).",
             "Trusts NumPy/LAPACK on the dense side."),
     "C05": ("reference-model monitor: explicit parity signs and Jordan-Wigner matrices; all contraction orders",
             "swap_gate signs are recomputed per dense element from leg charges; ncon networks with swaps are evaluated for every "
@@ -56,7 +56,8 @@ T = {
             "Every snapshot yielded by tdvp_ (1site/2site/12site, 2nd/4th order, real/imaginary/complex u, time-dependent callables, time "
             "grids in all documented forms, omitted arguments, scaled H and states) is judged online: norm and energy conservation, charge "
             "sector, canonical form, time bookkeeping, exactness on the full manifold against expm of the dense sector generator, and the "
-            "observed convergence order in dt.", "scipy.linalg.expm"),
+            "observed convergence order in dt; runs whose dt does not divide the interval must sample a callable generator at the same times "
+            "and end in the same state as the run asking for the adjusted step.", "scipy.linalg.expm"),
     "C11": ("reference-model monitor: expm of JW Hamiltonians vs gates; dense gate application vs apply_gate_",
             "Predefined and user gates are compared with expm of explicit Jordan-Wigner Hamiltonians; apply_gate_ (nn, distant, MPO gates, "
             "across the fermionic seam, with ancillas, scaled and zero gates) and PEPS sums are compared with dense application on the "
@@ -65,7 +66,7 @@ T = {
             "EnvBoundaryMPS, EnvCTM (after exact expansion) and EnvBP (loop-free lattices) expectation values of 1-site, nn, 2-site and "
             "n-site operators (all container forms and orders, windows, repeated sites, defaults) and sample probabilities are compared "
             "with the dense state; NTU bond metrics are monitored for hermiticity and positive semi-definiteness; non-binding evolution "
-            "steps are compared with the exactly evolved state.", "dense state from to_tensor validated in-run"),
+            "steps are compared with the exactly evolved state; EnvBP reads before an evolution step must be transparent (unmeasured twin).", "dense state from to_tensor validated in-run"),
     "C13": ("specification monitor on truncation masks (set-theoretic oracle) + dense error identity",
             "The boolean mask returned by truncation_mask / *_with_truncation is judged against the set-theoretic specification "
             "(limits respected, maximal weight, ties free) over a grid of limits and spectra; the truncation error identity is "
@@ -103,7 +104,8 @@ T = {
     "C19": ("exhaustive enumeration monitor against independent group laws; Leg argument grid vs validity predicate",
             "For all seven symmetry classes the group axioms, fuse() in batch and single form, add_charges, canonicalisation of "
             "non-canonical / int32 / empty inputs and large U(1) charges are enumerated exhaustively over charge boxes and compared with "
-            "independent group laws; Leg construction is run over an argument grid against a validity predicate; leg unions, products and "
+            "independent group laws; Leg construction is run over an argument grid (incl. one non-canonical charge among canonical ones at every "
+            "position) against a validity predicate; leg unions, products and "
             "their inverses against set / group-law models.", "vmon/groups.py"),
     "C20": ("exhaustive enumeration monitor against a brute-force lattice model",
             "All SquareLattice and full_patch TriangularLattice sizes up to 5x5 with each boundary, Checkerboard, all RectangularUnitcell "
